@@ -186,6 +186,7 @@ def static_envs(F, quick):
         if not F.dw:
             for c in (1, 17):
                 add(dict(b, cin=Fraction(c)))
+        add(dict(b, cin=Fraction(0), cout=Fraction(0)) if F.dw else dict(b, cout=Fraction(0)))      # an empty (fully pruned) layer
         if F.spec in ('mpic_latency', 'mpic_energy'):
             add(dict(b, ip=Fraction(3)))
         if F.spec in ('ne16_latency', 'diana_latency'):
@@ -198,7 +199,11 @@ def static_envs(F, quick):
 
 
 def reps_for(e):
-    return REPS if all(Fraction(e[k]).denominator == 1 for k in ('wp', 'ip', 'theta', 'cin', 'cout')) else ('float', 'f32')
+    if not all(Fraction(e[k]).denominator == 1 for k in ('wp', 'ip', 'theta', 'cin', 'cout')):
+        return ('float', 'f32')
+    if e['cin'] == 0 or e['cout'] == 0 or e['cin'] % e['groups'] or e['cout'] % e['groups']:      # no real nn module has zero channels / channels that the groups do not divide
+        return ('int', 'float', 'f32')
+    return REPS
 
 
 def lookup_layers(kind):
@@ -212,7 +217,9 @@ def lookup_layers(kind):
     out = []
     kernels = [(1, 1), (3, 3), (5, 5), (3, 1)] if kind == 'conv2d' else [(1, 1), (3, 1), (5, 1)]
     shapes = [('dense', 8, 16, 1), ('dense-square', 8, 8, 1), ('depthwise', 8, 8, 8), ('depthwise-wide', 33, 33, 33), ('one-to-one', 1, 1, 1),
-              ('grouped', 8, 16, 2), ('grouped-square', 8, 8, 2)]
+              ('grouped', 8, 16, 2), ('grouped-square', 8, 8, 2),
+              ('channel-multiplier', 4, 8, 4), ('channel-multiplier-x3', 3, 9, 3),      # groups == in_channels, out = K * in
+              ('single-input', 1, 8, 1), ('single-output', 8, 1, 1)]
     for tag, cin, cout, g in shapes:
         for k0, k1 in kernels:
             e = dict(base, cin=Fr(cin), cout=Fr(cout), groups=Fr(g), k0=Fr(k0), k1=Fr(k1))
@@ -223,6 +230,29 @@ def lookup_layers(kind):
         if tag.endswith('3x3') or tag.endswith('-3') or tag.endswith('1x1') or tag.endswith('-1'):
             out.append((tag + '-w2', dict(e, wp=Fr(2))))
     return out
+
+
+REAL_COUNT = {'params': lambda w, b, pos: w + b, 'params_no_bias': lambda w, b, pos: w,
+              'ops': lambda w, b, pos: (w + b) * pos, 'ops_no_bias': lambda w, b, pos: w * pos}
+
+
+def real_counts(torch, kind, e):
+    """(weight elements, bias elements, output positions) of the real torch layer described by e"""
+    import torch.nn as nn
+    cin, cout, g, bias = int(e['cin']), int(e['cout']), int(e['groups']), bool(e['bias'])
+    with torch.no_grad():
+        if kind == 'linear':
+            m, x = nn.Linear(cin, cout, bias=bias), torch.zeros(1, cin)
+        elif kind == 'conv1d':
+            m, x = nn.Conv1d(cin, cout, int(e['k0']), groups=g, bias=bias), torch.zeros(1, cin, int(e['o2']) + int(e['k0']) - 1)
+        else:
+            m = nn.Conv2d(cin, cout, (int(e['k0']), int(e['k1'])), groups=g, bias=bias)
+            x = torch.zeros(1, cin, int(e['o2']) + int(e['k0']) - 1, int(e['o3']) + int(e['k1']) - 1)
+        y = m(x)
+    pos = 1
+    for d in y.shape[2:]:
+        pos *= int(d)
+    return m.weight.numel(), (m.bias.numel() if m.bias is not None else 0), pos
 
 
 def call_lookup(torch, sname, kind, env, rep):
@@ -266,6 +296,14 @@ def supported(F, e):
     return True
 
 
+def _mentions(t, var):
+    if not isinstance(t, tuple):
+        return False
+    if t[0] == 'var':
+        return t[1] == var
+    return any(_mentions(x, var) if isinstance(x, tuple) else (isinstance(x, list) and False) for x in t[1:])
+
+
 def load_fns(torch, res, notes):
     import plinio.cost as pc
     from plinio.cost import pattern as pat
@@ -297,6 +335,8 @@ def load_fns(torch, res, notes):
                     F.model = HAND[(sname, fn.__name__)]
                 else:
                     F.model = None
+                # does the function's result depend on spec['groups']?  (translated: the term mentions it; hand models: DIANA conv2d)
+                F.reads_groups = (_mentions(res['functions'][cn]['body'], 9) if cn in res['functions'] else (sname == 'diana_latency' and F.kind == 'conv2d'))
                 F.idx = len(fns)
                 fns.append(F)
     return fns, live_tables
@@ -356,6 +396,12 @@ def bases_for(F, quick):
         if key not in seen:
             seen.add(key)
             out.append(b)
+    if getattr(F, 'reads_groups', False) and not F.dw and F.kind != 'linear':
+        # models whose result depends on `groups`: the same sweeps (0 effective channels included) through a grouped and
+        # a depthwise-shaped layer, at the precision of the first base point
+        b0 = out[0]
+        out.append(dict(b0, groups=Fraction(2)))
+        out.append(dict(b0, cin=b0['cout'], groups=b0['cout']))
     return out
 
 
@@ -637,7 +683,7 @@ def run(ctx):
                         'float64 evaluation of the implementation: integer/dyadic results compared with =, MPIC / DIANA-analog within 2^-40, MPIC energy (float32 constant) within 2^-20']
     ctx.rule = ('every registered function of every spec in plinio.cost x base points (3 quick / 10 thorough) x one-dimensional sweeps: channels 0..130 (quick: through the first base point, multiples of 16 +-1 through the others) + {255..257, 511..513} + quarter-step '
                 'fractions (around tile boundaries quick / all thorough), kernel entries {1,3,5,7} (each and jointly), output sizes 1..33, bits {0,1,2,3,4,6,8,16} for weights and activations, '
-                'bias on/off, theta, groups; plus every function on integer-sized layers (base points, channel counts around tile sizes, one unsupported precision) described with plain ints, plain floats, float32 tensors and vars() of a real nn module + real forward shapes; non-integer bit-widths (0.5, 2.5, 4.75, 8.875, 8 -+ eps) as tensors and floats; relaxed channel counts k*16 -+ 2^-17..2^-10 next to the tile multiples (tiled models; all models in thorough); per function one in-process call SEQUENCE covering every ordered pair of (name of the activation-precision key, precision in {8,4,3}); every spec looked up (spec[(type, layer)](layer)) on dense / grouped / depthwise / one-to-one layers x kernels 1, 3, 5, mixed; one case = one call of a cost function (or STE helper); non-trivial = returns a cost > 0 or rejects; distinct by (function, arguments)')
+                'bias on/off, theta, groups; plus every function on integer-sized layers (base points, channel counts around tile sizes, one unsupported precision) described with plain ints, plain floats, float32 tensors and vars() of a real nn module + real forward shapes; non-integer bit-widths (0.5, 2.5, 4.75, 8.875, 8 -+ eps) as tensors and floats; relaxed channel counts k*16 -+ 2^-17..2^-10 next to the tile multiples (tiled models; all models in thorough); per function one in-process call SEQUENCE covering every ordered pair of (name of the activation-precision key, precision in {8,4,3}); every spec looked up (spec[(type, layer)](layer)) on dense / grouped / depthwise / one-to-one / channel-multiplier (groups == in, out = K*in) / single-input / single-output layers x kernels 1, 3, 5, mixed — a layer costed by a depthwise formula must cost groups x generic(one group), params/ops counts must be those of the real torch layer; models that read `groups` are swept through grouped and depthwise-shaped base points too (0 effective channels included); empty layers also as plain numbers; one case = one call of a cost function (or STE helper); non-trivial = returns a cost > 0 or rejects; distinct by (function, arguments)')
 
     notes = ctx.notes
     fns, live_tables = load_fns(torch, res, notes)
@@ -685,9 +731,9 @@ def run(ctx):
                     report('accepts-unsupported-precision:%s' % F.id, F, dict(info, value=v),
                            '%s returned %r for the unsupported precision %s described with %s' % (F.id, v, jenv(e), REP_TEXT[rep]))
                 elif exc is None:
-                    if not (math.isfinite(v) and v >= 0 and (v > 0 or e['wp'] < 2 or e['ip'] < 2)):
+                    if not (math.isfinite(v) and v >= 0 and (v > 0 or e['wp'] < 2 or e['ip'] < 2 or e['cin'] < 1 or e['cout'] < 1)):
                         report('not-finite-nonneg-positive:%s:%s' % (F.id, rep), F, dict(info, value=repr(v)),
-                               '%s returned %r for the non-empty layer %s described with %s' % (F.id, v, jenv(e), REP_TEXT[rep]))
+                               '%s returned %r (required: finite, >= 0, > 0 when non-empty) for the layer %s described with %s' % (F.id, v, jenv(e), REP_TEXT[rep]))
     # call SEQUENCES in this one process: a cost function is a pure function of ONE layer description — what it returns
     # (or whether it rejects) must not depend on the descriptions it was called with before
     for F in fns:
@@ -736,6 +782,26 @@ def run(ctx):
                     ctx.case(('lookup', sname, kind, envkey(e), rep), nontrivial=True, kind='lookup:%s:%s' % (kind, 'reject' if exc else 'value'),
                              sample={'spec': sname, 'layer': kind + ':' + tag, 'representation': rep, 'env': jenv(e), 'impl': v if exc is None else 'EXC:' + exc} if (tag == 'depthwise-1x1' and sname == 'gap8_latency') else None)
                     info = {'lookup': True, 'spec_name': sname, 'kind': kind, 'layer': tag, 'env': jenv(e), 'representation': rep}
+                    if exc is None and Ff and math.isfinite(v):
+                        # dispatch level: a layer costed by the DEPTHWISE formula of a hardware-independent spec must cost
+                        # groups x the generic formula of one group, and size / operation counts are those of the real layer
+                        if Ff[0].dw and sname in cost2coq.HW_INDEPENDENT:
+                            Fg = [F for F in fns if F.spec == sname and F.kind == kind and not F.dw and F.pattern.endswith('Generic')]
+                            g = e['groups']
+                            if Fg:
+                                eg = dict(e, cin=e['cin'] / g, cout=e['cout'] / g, groups=Fraction(1))
+                                vg, xg = call(torch, Fg[0], eg)
+                                ctx.case(('lookup-dw', sname, kind, envkey(e), rep), kind='lookup:dw-vs-generic')
+                                if xg is not None or v != float(g) * vg:
+                                    report('dw-dispatch-differs-from-generic-per-group:%s:%s' % (sname, kind), None, dict(info, value=v, groups=int(g), generic_one_group=vg, env_one_group=jenv(eg), dispatched_to=Ff[0].py_name),
+                                           '%s[(%s, layer)] costs the %s layer %s with the depthwise formula %s = %r but %d groups x generic(one group %s) = %d x %r' % (sname, kind, tag, jenv(e), Ff[0].py_name, v, g, jenv(eg), g, vg))
+                        if rep == 'module' and sname in REAL_COUNT and (e['groups'] == 1 or Ff[0].dw):
+                            w_, b_, pos_ = real_counts(torch, kind, e)
+                            want = REAL_COUNT[sname](w_, b_, pos_)
+                            ctx.case(('lookup-real', sname, kind, envkey(e)), kind='lookup:real-count')
+                            if v != want:
+                                report('count-differs-from-real-layer:%s:%s' % (sname, kind), None, dict(info, value=v, real_count=want, weight_elements=w_, bias_elements=b_, output_positions=pos_, dispatched_to=Ff[0].py_name),
+                                       '%s[(%s, layer)] = %r for the real %s layer %s (via %s) whose weights/bias/output positions %d/%d/%d give %d' % (sname, kind, v, tag, jenv(e), Ff[0].py_name, w_, b_, pos_, want))
                     if exc is not None and sup is True:
                         report('lookup-raises-on-valid-layer:%s:%s:%s' % (sname, kind, tag), None, dict(info, exception=exc),
                                '%s[(%s, layer)](layer) raised %s for the valid %s layer %s (%s)' % (sname, kind, exc, tag, jenv(e), REP_TEXT[rep]))
@@ -871,6 +937,23 @@ def replay(r):
         e = {k: Fraction(v) for k, v in c['env'].items()}
         v, exc, fn = call_lookup(torch, c['spec_name'], c['kind'], e, c.get('representation', 'f64'))
         print('replayed %s[(%s, layer)](layer) on the %s layer %s (%s) -> %s' % (c['spec_name'], c['kind'], c['layer'], c['env'], REP_TEXT[c.get('representation', 'f64')], v if exc is None else 'raises ' + exc))
+        if r.get('key', '').startswith('dw-dispatch-differs'):
+            res0 = {'functions': {}}
+            fns0, _ = load_fns(torch, res0, [])
+            Fg = [F for F in fns0 if F.spec == c['spec_name'] and F.kind == c['kind'] and not F.dw and F.pattern.endswith('Generic')][0]
+            Fl = [F for F in fns0 if F.fn is fn]
+            vg, _ = call(torch, Fg, {k: Fraction(v_) for k, v_ in c['env_one_group'].items()})
+            print('dispatched to %s; generic on one group %s -> %r; required when the depthwise formula is used: %d x %r' % (fn.__name__ if fn else None, c['env_one_group'], vg, c['groups'], vg))
+            return 0 if exc is None and (not (Fl and Fl[0].dw) or v == c['groups'] * vg) else 1
+        if r.get('key', '').startswith('count-differs-from-real-layer'):
+            w_, b_, pos_ = real_counts(torch, c['kind'], e)
+            want = REAL_COUNT[c['spec_name']](w_, b_, pos_)
+            fns0, _ = load_fns(torch, {'functions': {}}, [])
+            is_dw = any(F.fn is fn and F.dw for F in fns0)
+            claimed = e['groups'] == 1 or is_dw
+            print('real layer: %d weights, %d bias, %d output positions -> %d; dispatched to %s; the count is required for layers with one group and for layers costed by a depthwise formula: %s'
+                  % (w_, b_, pos_, want, fn.__name__ if fn else None, 'applies' if claimed else 'does not apply (grouped layer costed by the generic formula)'))
+            return 0 if exc is None and (v == want or not claimed) else 1
         if r.get('key', '').startswith('lookup-accepts-unsupported'):
             print('required: rejected (an exception)')
             return 0 if exc is not None else 1
